@@ -1,1 +1,15 @@
 //! Verification doors: metrics (cfg(trusttunnel_verif) only)
+
+use crate::core::Core;
+use crate::log_utils;
+use std::io;
+
+/// The text the metrics listener would answer `GET /metrics` with, for this core's context
+pub fn collect_text(core: &Core) -> String {
+    core.verif_context().metrics.verif_collect()
+}
+
+/// Run the metrics listener (`settings.metrics.address`) until shutdown or error
+pub async fn serve(core: &Core) -> io::Result<()> {
+    crate::metrics::listen(core.verif_context(), log_utils::IdChain::empty()).await
+}
